@@ -80,8 +80,59 @@ def showGraph (g : Graph) : String :=
   let m := (g.missing.mergeSort (fun a b => a.1 ≤ b.1)).map (fun x => toString x.1 ++ "=" ++ showNats x.2)
   "ok O=" ++ orDash ">" o ++ " N=" ++ orDash ";" n ++ " E=" ++ orDash ";" e ++ " M=" ++ orDash ";" m
 
+/-! `c10 obs <specs> <vm> <ops>`: the public observers on the graph after `ops`:
+    `ok n=<len Nodes()> e=<len Edges()> q=<per certificate of the universe FindEdge!=nil,FindNode!=nil,IsRoot>` -/
+def bit (b : Bool) : String := if b then "1" else "0"
+
+def showObs (g : Graph) (cs : List Cert) : String :=
+  "ok n=" ++ toString (nodesLen g) ++ " e=" ++ toString (edgesLen g) ++ " q=" ++
+    orDash "," (cs.map (fun c => bit (findEdgeOk g c) ++ bit (findNodeOk g c) ++ bit (isRoot g c)))
+
+/-! `c10 pem <specs> <vm> <ops0> <root> <items>`: `AppendFromPEMErr(stream(items), root)` on the graph
+    reached by `ops0`.  items (`,`): `c<i>`/`t<i>`/`h<i>` certificate i (label CERTIFICATE / another label /
+    with PEM headers), `b`/`k<i>`/`p` block that does not parse, `j`/`m`/`x`/`u` junk, `g` 70000 bytes
+    without a block.  Output `n=<count> errs=<#parsing errors> rerr=<0/1> w=<AppendFromPEM count> <dump>`. -/
+def parsePemItem (cs : List Cert) (s : String) : Option PemItem :=
+  match s.toList with
+  | ['j'] | ['m'] | ['x'] | ['u'] => some .junk
+  | ['b'] | ['p'] => some .bad
+  | ['g'] => some .big
+  | 'k' :: rest => ((String.ofList rest).toNat?.bind (nth? cs)).map (fun _ => PemItem.bad)
+  | 'c' :: rest | 't' :: rest | 'h' :: rest => ((String.ofList rest).toNat?.bind (nth? cs)).map PemItem.cert
+  | _ => none
+
+def parsePemItems (cs : List Cert) (tok : String) : Option (List PemItem) :=
+  if tok == "-" then some [] else (tok.splitOn ",").mapM (parsePemItem cs)
+
+def handlePem (V : Ver) (_cs : List Cert) (ops0 : List Op) (root : Bool) (items : List PemItem) : String :=
+  match run V Graph.empty ops0 with
+  | .ok g0 =>
+    match appendFromPEMErr V g0 items root, appendFromPEM V g0 items root with
+    | .ok o, .ok (w, _) =>
+      "n=" ++ toString o.count ++ " errs=" ++ toString o.nerr ++ " rerr=" ++ bit o.readErr ++ " w=" ++ toString w
+        ++ " " ++ showGraph o.g
+    | _, _ => "panic"
+  | _ => "panic"
+
 def handle (args : List String) : String :=
   match args with
+  | ["obs", specs, vm, ops] =>
+    match parseCerts specs, parseMatrix vm with
+    | some cs, some m =>
+      match parseOps cs ops with
+      | some os =>
+        match run (verOf m) Graph.empty os with
+        | .ok g => showObs g cs
+        | _ => "panic"
+      | none => "bad-op"
+    | _, _ => "bad-op"
+  | ["pem", specs, vm, ops0, root, items] =>
+    match parseCerts specs, parseMatrix vm with
+    | some cs, some m =>
+      match parseOps cs ops0, parsePemItems cs items with
+      | some os, some its => handlePem (verOf m) cs os (root == "1") its
+      | _, _ => "bad-op"
+    | _, _ => "bad-op"
   | [specs, vm, ops] =>
     match parseCerts specs, parseMatrix vm with
     | some cs, some m =>
